@@ -126,6 +126,17 @@ class Injector:
             self.trace.fire('R-tail')
         else:
             pos = -1
+            if anchor.startswith('re:'):
+                # a pattern instead of a literal line: tolerant of edits inside the anchored statement (which then FAIL the proof
+                # instead of losing the anchor)
+                ms_ = list(re.finditer(anchor[3:], seg))
+                if len(ms_) <= occ:
+                    if not hasattr(self.trace, 'lost'):
+                        raise ExtractError('anchor lost in %s: %r' % (qual, anchor))
+                    self.trace.lost.setdefault(qual, []).append(anchor)
+                    return
+                anchor = ms_[occ].group(0)
+                occ = seg[:ms_[occ].start()].count(anchor)
             for _ in range(occ + 1):
                 pos = seg.find(anchor, pos + 1)
                 if pos < 0:
@@ -243,12 +254,16 @@ HARD_ERR_RE = re.compile(r'error(\[E\d+\])?: (?!.*(postcondition|precondition|as
                          r'decreases|unreachable|recommend|not satisfied|failed|might fail|possible|cannot show|resource limit|aborting due))', re.I)
 
 
+# extra command-line arguments for the unit being run (set by the driver from the unit's `verus_args`, e.g. the crate's edition)
+EXTRA_ARGS = []
+
+
 def run_one(path, fn_pattern, rlimit=None, timeout=900, extra=(), multiple_errors=3):
     cmd = [VERUS, path, '--verify-root', '--verify-function', fn_pattern, '--output-json', '--time',
            '--num-threads', '1', '--multiple-errors', str(multiple_errors), '--triggers-mode', 'silent']
     if rlimit:
         cmd += ['--rlimit', str(rlimit)]
-    cmd += list(extra)
+    cmd += list(extra) + list(EXTRA_ARGS)
     t0 = time.time()
     try:
         p = subprocess.run(cmd, stdout=subprocess.PIPE, stderr=subprocess.PIPE, text=True, timeout=timeout,
@@ -346,7 +361,8 @@ def fn_spans(text):
             i, j, k = rsx.find_item(text, r'^[ \t]*(?:pub(?:\([a-z]+\))?\s+)?(?:const\s+)?fn\s+%s\b' % re.escape(m.group(1)), m.start(), 'fn')
         except ExtractError:
             continue
-        if rsx.line_start(text, i) != rsx.line_start(text, m.start()):
+        # (find_item moves i up over attribute lines directly above the header)
+        if not (i <= m.start() < j):
             continue
         spans.append((m.group(1), text.count('\n', 0, i) + 1, text.count('\n', 0, k) + 1, rsx.line_start(text, i)))
     return spans
@@ -386,7 +402,7 @@ def precheck(texts, unit_dir, max_rounds=4):
         with open(p, 'w') as f:
             f.write(texts['base'])
         try:
-            r = subprocess.run([VERUS, p, '--no-verify', '--triggers-mode', 'silent'], stdout=subprocess.PIPE, stderr=subprocess.PIPE, text=True,
+            r = subprocess.run([VERUS, p, '--no-verify', '--triggers-mode', 'silent'] + list(EXTRA_ARGS), stdout=subprocess.PIPE, stderr=subprocess.PIPE, text=True,
                                timeout=600, cwd=unit_dir)
         except subprocess.TimeoutExpired:
             return texts, excluded
